@@ -2,6 +2,7 @@
   C12 — Topic deletion is detected exactly.  Property theorems only.
 -/
 import BurrowVerif.Proofs.Cluster
+import BurrowVerif.Generated.SaramaShim
 
 namespace Burrow.Props.C12
 open Burrow Burrow.Cluster Burrow.Spec.Cluster
@@ -68,5 +69,10 @@ example : (runCycles CState.init
 example : (cycleOuts (runLoop "c0" CState.init
     [.offset (envWith (some ["a", "b"]) false), .offset (envWith (some ["a"]) false), .metadata,
      .reaper (some []) (some []), .offset (envWith (some ["a"]) false)])).map (·.deletes) = [[], [], ["b"]] := by decide
+
+/-- What the module is answered IS what the Kafka client answered: the shim between the module and
+    `sarama.Client` (regenerated from helpers/sarama.go on every run) hands every call and every answer
+    through unchanged and keeps no state of its own — the topic and partition listings the deletion logic compares. -/
+theorem shim_is_transparent : Shim.transparent Burrow.Generated.saramaShim = true := by decide
 
 end Burrow.Props.C12
